@@ -62,7 +62,7 @@ def run(ctx):
     mon.attach_transform()
     to_rfi = F.transform.to_rfi
     path = os.path.join(ctx.tmpdir, 'c03.fcs')
-    nsamp = 60 if ctx.tier == 'quick' else 1500
+    nsamp = 60 if ctx.tier == 'quick' else 8000
     for cid, rng in ctx.cases([('s', i) for i in range(nsamp)]):
         mon.cid = cid
         if rng.random() < 0.8:
@@ -167,4 +167,7 @@ def run(ctx):
                 else:
                     ref[key] = out
                 ctx.case_done(class_key=('perm-block', k), nontrivial=True, distinct_key=core.digest(cid, pos))
+    # the repository's own tests as a workload under the same monitors (their assertions are not the oracle)
+    from rv import suite_workload
+    suite_workload.run_repo_suite(ctx, mon, modules=('test_transform.py',))
     mon.detach()
